@@ -21,7 +21,13 @@ func init() {
 	for _, m := range []string{"Printf", "Println", "Print", "Fatalf", "Fatal"} {
 		reg("(*log.Logger)."+m, "writes a log line; panics on a nil *Logger; no effect on program state", nopRecv("Logger."+m))
 		pure("(*log.Logger)." + m)
-		reg("log."+m, "writes a log line; no effect on program state", func(fr *Frame, in ssa.Instruction, st *State, args []Value, rt types.Type) Value { return nil })
+		fatal := m == "Fatalf" || m == "Fatal"
+		reg("log."+m, "writes a log line; no effect on program state (Fatal, Fatalf: does not return)", func(fr *Frame, in ssa.Instruction, st *State, args []Value, rt types.Type) Value {
+			if fatal {
+				st.Guard = False()
+			}
+			return nil
+		})
 		pure("log." + m)
 	}
 	reg("log.New", "returns a non-nil logger", func(fr *Frame, in ssa.Instruction, st *State, args []Value, rt types.Type) Value {
